@@ -786,7 +786,10 @@ class VBSClusteringManager:
             # Extract radius from circular bounding box if present
             bbox = vci.get("clusterBoundingBoxShape")
             radius: Optional[float] = None
-            if bbox and "circular" in bbox:
+            if isinstance(bbox, (tuple, list)) and len(bbox) == 2 and bbox[0] == "circular":
+                # decoded ASN.1 CHOICE: (alternative name, value)
+                radius = float(bbox[1].get("radius", vam_constants.MAX_CLUSTER_DISTANCE))
+            elif isinstance(bbox, dict) and "circular" in bbox:
                 radius = float(bbox["circular"].get("radius", vam_constants.MAX_CLUSTER_DISTANCE))
 
             self._nearby_clusters[c_id] = _NearbyCluster(
@@ -1047,7 +1050,7 @@ class VBSClusteringManager:
                 vam_constants.TIME_CLUSTER_JOIN_NOTIFICATION - elapsed,
             )
             # joinTime is DeltaTimeQuarterSecond (0..127, units 0.25 s)
-            join_time = min(127, int(remaining_s / 0.25))
+            join_time = max(1, min(127, int(remaining_s / 0.25)))  # DeltaTimeQuarterSecond is 1..255
             return {
                 "clusterJoinInfo": {
                     "clusterId": self._join_target_cluster_id or 0,
@@ -1101,7 +1104,7 @@ class VBSClusteringManager:
                 0.0,
                 vam_constants.TIME_CLUSTER_BREAKUP_WARNING - elapsed,
             )
-            breakup_time = min(127, int(remaining_s / 0.25))
+            breakup_time = max(1, min(127, int(remaining_s / 0.25)))  # DeltaTimeQuarterSecond is 1..255
             return {
                 "clusterBreakupInfo": {
                     "clusterBreakupReason": (
